@@ -111,6 +111,25 @@ pub fn jobs(quick: bool) -> Vec<(Arc<Scenario>, RunSpec, usize)> {
             }
         }
     }
+    // verbose runs, with a healthy and with a failing log stream: logging must not influence the outcome
+    for d in drivers() {
+        for mode in ["never", "auto", "always"] {
+            let tree = vec![Entry::dir("src"), Entry::file("src/a", "0123456789"), Entry::file("src/b", "abcdef")];
+            let s = Arc::new(Scenario::new(&format!("reflink-{}-verbose-{}", mode, d), tree, &["-vv", "-r", "--reflink", mode, "--driver", d, "-w", "2", "--block-size", "4096", "src", "dst"]));
+            for a1 in [None, Some(Action::Errno(EOPNOTSUPP)), Some(Action::Errno(EINVAL)), Some(Action::Errno(EXDEV)), Some(Action::EmulateOk)] {
+                for log_fails in [None, Some(ENOSPC), Some(EPIPE)] {
+                    let mut sp = RunSpec::base(Policy::P0);
+                    if let Some(a) = &a1 {
+                        sp.faults.push(Fault { call: "ioctl:FICLONE".into(), thread: None, nth: None, path_contains: None, action: a.clone() });
+                    }
+                    if let Some(e) = log_fails {
+                        sp.faults.push(Fault { call: "write:stdio".into(), thread: None, nth: None, path_contains: None, action: Action::Errno(e) });
+                    }
+                    out.push((s.clone(), sp, 0));
+                }
+            }
+        }
+    }
     out
 }
 
